@@ -11,6 +11,11 @@ import (
 	"github.com/osmosis-labs/osmosis/osmomath"
 	clmodel "github.com/osmosis-labs/osmosis/v31/x/concentrated-liquidity/model"
 	cltypes "github.com/osmosis-labs/osmosis/v31/x/concentrated-liquidity/types"
+	gammtypes "github.com/osmosis-labs/osmosis/v31/x/gamm/types"
+	incentivestypes "github.com/osmosis-labs/osmosis/v31/x/incentives/types"
+	lockuptypes "github.com/osmosis-labs/osmosis/v31/x/lockup/types"
+	pmtypes "github.com/osmosis-labs/osmosis/v31/x/poolmanager/types"
+	sftypes "github.com/osmosis-labs/osmosis/v31/x/superfluid/types"
 	valsettypes "github.com/osmosis-labs/osmosis/v31/x/valset-pref/types"
 
 	"verif/harness/drv"
@@ -194,4 +199,106 @@ func TestKnown_C19_protorev_state_not_exported(t *testing.T) {
 		return
 	}
 	t.Log("protorev pair pools survived export/import: finding no longer reproduces")
+}
+
+// TestKnown_C19_incentives_gauge_activation: a gauge whose start time has passed stays "upcoming" on a running node until
+// the next end of the distribution epoch moves it to the active list; InitGenesis classifies the same gauge by the clock
+// alone, so a node initialised from an export taken inside that window reports it as active (ActiveGauges / UpcomingGauges
+// queries and the order of its own export differ from the source node).
+func TestKnown_C19_incentives_gauge_activation(t *testing.T) {
+	n := NewNode(Bootstrap(defaultCfg()))
+	defer n.Close()
+	start := n.Time.Add(time.Hour)
+	mustTx(t, n, 5*time.Second, 0, incentivestypes.NewMsgCreateGauge(false, Actor(0), lockuptypes.QueryCondition{LockQueryType: lockuptypes.ByDuration, Denom: "foo", Duration: time.Second},
+		sdk.NewCoins(coin("uosmo", 1_000_000)), start, 2, 0))
+	// two hours later: the start time has passed, no day epoch has ended
+	if _, err := n.RunBlock(2*time.Hour, nil, n.Votes()); err != nil {
+		t.Fatal(err)
+	}
+	imp := exportImport(t, n)
+	defer imp.Close()
+	ids := func(x *Node) (up, act []uint64) {
+		for _, g := range x.App.IncentivesKeeper.GetUpcomingGauges(x.ReadCtx()) {
+			up = append(up, g.Id)
+		}
+		for _, g := range x.App.IncentivesKeeper.GetActiveGauges(x.ReadCtx()) {
+			act = append(act, g.Id)
+		}
+		return
+	}
+	if _, err := imp.RunBlock(5*time.Second, nil, nil); err != nil {
+		t.Fatal(err)
+	}
+	if _, err := n.RunBlock(5*time.Second, nil, n.Votes()); err != nil {
+		t.Fatal(err)
+	}
+	ua, aa := ids(n)
+	ub, ab := ids(imp)
+	if fmt.Sprint(ua, aa) != fmt.Sprint(ub, ab) {
+		drv.Reproduced(t, "C19-incentives-gauge-activation-not-exported")
+		if !drv.Known("C19-incentives-gauge-activation-not-exported") {
+			t.Fatalf("source node: upcoming %v active %v; node initialised from its export: upcoming %v active %v", ua, aa, ub, ab)
+		}
+		return
+	}
+	t.Log("gauge classification survived export/import: finding no longer reproduces")
+}
+
+// TestKnown_C19_superfluid_invariant_exact: the superfluid module invariant demands that the sum over locks of the
+// truncated OSMO value of each lock EQUALS the staked total of the intermediary accounts, which stake the truncated value
+// of the SUM of their locks (and drift by a unit per top-up between refreshes, as the module documents). With two locks
+// through one intermediary account the two sides differ by a unit for most amounts; InitChain asserts all invariants, so
+// such a (perfectly healthy) state cannot be imported from its export.
+func TestKnown_C19_superfluid_invariant_exact(t *testing.T) {
+	n := NewNode(Bootstrap(defaultCfg()))
+	defer n.Close()
+	// the multipliers are set at the first epoch
+	if _, err := n.RunBlock(24*time.Hour+time.Second, nil, n.Votes()); err != nil {
+		t.Fatal(err)
+	}
+	// actor 1 and 2 need shares of the superfluid pool (pool 2)
+	share := gammtypes.GetPoolShareDenom(2)
+	for a := 1; a <= 3; a++ {
+		mustTx(t, n, 5*time.Second, a, &gammtypes.MsgJoinPool{Sender: Actor(a).String(), PoolId: 2, ShareOutAmount: osmomath.NewIntWithDecimal(1, 18), TokenInMaxs: sdk.NewCoins(coin(Bond, 1_000_000_000_000), coin("uosmo", 1_000_000_000_000))})
+	}
+	va, _ := sdk.ValAddressFromBech32(n.view().vals[0])
+	for i, amt := range []int64{333_333_333_333_333, 777_777_777_777_777, 123_456_789_012_345} {
+		mustTx(t, n, 5*time.Second, 1+i, sftypes.NewMsgLockAndSuperfluidDelegate(Actor(1+i), sdk.NewCoins(sdk.NewCoin(share, osmomath.NewInt(amt))), va))
+	}
+	// each delegation staked the truncated value of its own lock; the epoch refresh re-stakes the truncated value of the sum
+	for day := 0; day < 3; day++ {
+		if _, err := n.RunBlock(24*time.Hour+time.Second, nil, n.Votes()); err != nil {
+			t.Fatal(err)
+		}
+		raw, _, err := n.Export()
+		if err != nil {
+			t.Fatal(err)
+		}
+		var ierr error
+		func() {
+			defer func() {
+				if r := recover(); r != nil {
+					ierr = fmt.Errorf("%v", r)
+				}
+			}()
+			var imp *Node
+			imp, ierr = NewNodeFromExport(raw, n.Height, n.Time)
+			if imp != nil {
+				imp.Close()
+			}
+		}()
+		if ierr != nil && strings.Contains(ierr.Error(), "total superfluid intermediary account delegation amount does not match") {
+			drv.Reproduced(t, "C19-superfluid-invariant-exact")
+			if !drv.Known("C19-superfluid-invariant-exact") {
+				t.Fatalf("a state with three superfluid-delegated locks cannot be imported from its export after an epoch refresh: %v", ierr)
+			}
+			return
+		}
+		if ierr != nil {
+			t.Fatalf("import failed for another reason: %v", ierr)
+		}
+		// move the price a little so that the next refresh re-stakes
+		mustTx(t, n, 5*time.Second, 1, &pmtypes.MsgSwapExactAmountIn{Sender: Actor(1).String(), Routes: []pmtypes.SwapAmountInRoute{{PoolId: 2, TokenOutDenom: "uosmo"}}, TokenIn: coin(Bond, 1_234_567), TokenOutMinAmount: osmomath.OneInt()})
+	}
+	t.Log("all exports imported: finding no longer reproduces")
 }
